@@ -400,7 +400,7 @@ class Array(Node):
             dim = [0,dim]
         N = len(dim)
         # for string dimensions (used for stack arrays):
-        if not isinstance(dim[0],Number):
+        if N > 0 and not isinstance(dim[0],Number):
             assert(N == length), f"For non-numerical dims, the dim vector length must match the array dimension length. Recieved a dim vector of length {N} for an array dimension length of {length}."
         # For number-like dimensions:
         if N == length:
